@@ -19,7 +19,7 @@ ASSUMPTIONS = ["per box, pixels where the level holds only one of the two bracke
                "not judged for the exact value (statement does not single out a value)",
                "pool shim M1"]
 REQUIRED_OBS = {"plotfiles_written": 100, "boxes_checked": 300, "pixels_decided": 5000,
-                "splitting_cases": 1, "multi_level": 40}
+                "splitting_cases": 1, "multi_level": 20}
 TIMEOUT = {"quick": 600, "thorough": 3000}
 NAMES = ["ax", "ay", "az", "tagx", "tagy", "tagz", "rnd"]
 
